@@ -1435,3 +1435,261 @@ Proof.
     + pose proof (enc_hops_length (S depth) f). rewrite app_length. lia.
     + discriminate.
 Qed.
+
+(* ------------------------------------------------------------------ *)
+(** * Theorem 5: sign rules of udata_value / sdata_value *)
+
+Lemma to_signed_twos bits n : 0 < bits -> n < 2 ^ bits -> to_signed bits n = twos bits n.
+Proof.
+  intros Hb H. unfold to_signed, twos, wrapN. rewrite N.mod_small by assumption. reflexivity.
+Qed.
+
+Lemma of_i64_nonneg z : (0 <= z < 18446744073709551616)%Z -> of_i64 z = Z.to_N z.
+Proof.
+  intros H. unfold of_i64, of_signed. change (Z.of_N (2 ^ 64)) with 18446744073709551616%Z.
+  rewrite Z.mod_small by lia. reflexivity.
+Qed.
+
+Lemma udata_value_spec v : value_in_range v -> udata_value v = unsigned_reading v.
+Proof.
+  destruct v; cbn [value_in_range udata_value unsigned_reading]; intros H; try reflexivity.
+  destruct (Z.ltb_spec z 0); destruct (Z.leb_spec 0 z); try lia; try reflexivity.
+  rewrite of_i64_nonneg by lia. reflexivity.
+Qed.
+
+Lemma sdata_value_spec v : value_in_range v -> sdata_value v = signed_reading v.
+Proof.
+  destruct v; cbn [value_in_range sdata_value signed_reading]; intros H; try reflexivity.
+  - unfold to_i8. rewrite to_signed_twos by (try reflexivity; exact H). reflexivity.
+  - unfold to_i16. rewrite to_signed_twos by (try reflexivity; exact H). reflexivity.
+  - unfold to_i32. rewrite to_signed_twos by (try reflexivity; exact H). reflexivity.
+  - unfold to_i64. rewrite to_signed_twos by (try reflexivity; exact H). reflexivity.
+  - unfold two63, two64 in *.
+    destruct (N.ltb_spec (9223372036854775808 - 1) n); destruct (N.ltb_spec n 9223372036854775808); try lia;
+      try reflexivity.
+    unfold to_i64. rewrite to_signed_twos by (try reflexivity; exact H). unfold twos.
+    change (2 ^ (64 - 1)) with 9223372036854775808.
+    destruct (N.ltb_spec n 9223372036854775808); [reflexivity|lia].
+Qed.
+
+(* whenever both readings exist and the signed one is not negative they are the same number *)
+Lemma udata_sdata_agree v u s : value_in_range v ->
+  udata_value v = Some u -> sdata_value v = Some s -> (0 <= s)%Z -> Z.of_N u = s.
+Proof.
+  intros R. rewrite udata_value_spec, sdata_value_spec by assumption.
+  destruct v; cbn [value_in_range unsigned_reading signed_reading] in *; intros U S P;
+    try discriminate; inversion U; subst; clear U.
+  1-4: unfold twos in S;
+       match type of S with context [if ?c then _ else _] => destruct c eqn:C end;
+       inversion S; subst; try reflexivity;
+       change (2 ^ 8) with 256 in *; change (2 ^ 16) with 65536 in *;
+       change (2 ^ 32) with 4294967296 in *; change (2 ^ 64) with 18446744073709551616 in *;
+       unfold two16, two32, two64 in *; lia.
+  - destruct (Z.leb_spec 0 z); inversion H0; inversion S; subst. lia.
+  - match type of S with context [if ?c then _ else _] => destruct c end; inversion S; subst. reflexivity.
+Qed.
+
+(* ------------------------------------------------------------------ *)
+(** * Theorem 4: normalisation never changes the payload *)
+
+Lemma udata_value_payload v n : value_in_range v -> udata_value v = Some n ->
+  payload_of v = PInt (Z.of_N n) /\ n < two64.
+Proof.
+  intros R. rewrite udata_value_spec by assumption.
+  destruct v; cbn [value_in_range unsigned_reading payload_of] in *; intros H; try discriminate;
+    try (inversion H; subst; split; [reflexivity|unfold two16, two32, two64 in *; lia]).
+  destruct (Z.leb_spec 0 z); inversion H; subst. split; [f_equal|unfold two64]; lia.
+Qed.
+
+Lemma apply_conv_payload c v r : value_in_range v -> apply_conv c v = Some r ->
+  payload_of r = payload_of v /\ value_in_range r.
+Proof.
+  intros R. destruct c as [t| |t| |t]; cbn [apply_conv]; unfold option_map, u8_value, u16_value.
+  - destruct (udata_value v) as [n|] eqn:U; [|discriminate].
+    destruct (udata_value_payload v n R U) as [P B].
+    destruct (N.ltb_spec n 256); [|discriminate]. intros E; inversion E; subst.
+    rewrite P. destruct t; cbn; auto.
+  - destruct (udata_value v) as [n|] eqn:U; [|discriminate].
+    destruct (udata_value_payload v n R U) as [P B].
+    destruct (N.ltb_spec n two16); [|discriminate]. intros E; inversion E; subst.
+    rewrite P. cbn; auto.
+  - destruct (udata_value v) as [n|] eqn:U; [|discriminate].
+    destruct (udata_value_payload v n R U) as [P B].
+    intros E; inversion E; subst. rewrite P. destruct t; cbn; auto.
+  - destruct v; cbn [exprloc_value]; intros E; inversion E; subst; cbn; auto.
+  - destruct v; cbn [offset_value]; intros E; inversion E; subst.
+    cbn [value_in_range] in R. destruct t; cbn; auto.
+Qed.
+
+Lemma apply_convs_payload : forall cs v, value_in_range v ->
+  payload_of (apply_convs cs v) = payload_of v /\ value_in_range (apply_convs cs v).
+Proof.
+  induction cs as [|c t IH]; intros v R; cbn [apply_convs]; [auto|].
+  destruct (apply_conv c v) as [r|] eqn:A; [|apply IH; assumption].
+  eapply apply_conv_payload; eauto.
+Qed.
+
+Lemma normalise_payload name v : value_in_range v ->
+  payload_of (attr_normalise name v) = payload_of v /\ value_in_range (attr_normalise name v).
+Proof. intros R. apply apply_convs_payload. assumption. Qed.
+
+(* parsing produces values in range, so the hypothesis of normalise_payload is met by everything
+   the reader returns on inputs shorter than 2^64 bytes *)
+
+
+Lemma lor_lt a b k : a < 2 ^ k -> b < 2 ^ k -> N.lor a b < 2 ^ k.
+Proof.
+  intros Ha Hb.
+  destruct (N.eq_dec (N.lor a b) 0) as [E|NZ]; [rewrite E; apply pow2_pos|].
+  apply N.log2_lt_pow2; [lia|]. rewrite N.log2_lor.
+  assert (K : 0 < k).
+  { destruct (N.eq_dec k 0) as [->|]; [|lia]. change (2 ^ 0) with 1 in *.
+    assert (a = 0) by lia. assert (b = 0) by lia. subst. exfalso. apply NZ. reflexivity. }
+  apply N.max_lub_lt.
+  - destruct (N.eq_dec a 0) as [->|]; [exact K|]. apply N.log2_lt_pow2; [lia|assumption].
+  - destruct (N.eq_dec b 0) as [->|]; [exact K|]. apply N.log2_lt_pow2; [lia|assumption].
+Qed.
+
+Lemma shl64_lt dbg x s v : shl64 dbg x s = Ok v -> v < two64.
+Proof.
+  unfold shl64. destruct (64 <=? s); [destruct dbg; [discriminate|]|];
+    intros H; inversion H; apply wrap64_lt.
+Qed.
+
+Lemma uleb_loop_lt : forall bs dbg result shift v r,
+  result < two64 -> uleb_loop dbg result shift bs = Ok (v, r) -> v < two64.
+Proof.
+  induction bs as [|b t IH]; intros dbg result shift v r Rb H; cbn in H; [discriminate|].
+  destruct ((shift =? 63) && negb (b2n b =? 0) && negb (b2n b =? 1)); [discriminate|].
+  destruct (shl64 dbg (low7 (b2n b)) shift) as [sh| | |] eqn:S; cbn [bind] in H; try discriminate.
+  apply shl64_lt in S.
+  assert (N.lor result sh < two64) by (apply (lor_lt _ _ 64); assumption).
+  destruct (has_cont (b2n b)); [eapply IH; eauto|]. inversion H; subst. assumption.
+Qed.
+
+Lemma read_uleb128_lt dbg bs v r : read_uleb128 dbg bs = Ok (v, r) -> v < two64.
+Proof.
+  destruct bs as [|b t]; cbn; [discriminate|].
+  pose proof (b2n_lt b). pose proof (low7_lt (b2n b)).
+  destruct (has_cont (b2n b)).
+  - apply uleb_loop_lt. unfold two64. lia.
+  - intros E; inversion E; subst. unfold two64. lia.
+Qed.
+
+Lemma to_i64_range x : (-9223372036854775808 <= to_i64 x < 9223372036854775808)%Z.
+Proof.
+  unfold to_i64, to_signed, wrapN. change (2 ^ (64 - 1)) with 9223372036854775808.
+  change (2 ^ 64) with 18446744073709551616.
+  pose proof (N.mod_lt x 18446744073709551616 ltac:(discriminate)).
+  destruct (N.ltb_spec (x mod 18446744073709551616) 9223372036854775808); lia.
+Qed.
+
+Lemma sleb_loop_range : forall bs dbg result shift v r,
+  sleb_loop dbg result shift bs = Ok (v, r) -> (-9223372036854775808 <= v < 9223372036854775808)%Z.
+Proof.
+  induction bs as [|b t IH]; intros dbg result shift v r H; cbn in H; [discriminate|].
+  destruct ((shift =? 63) && negb (b2n b =? 0) && negb (b2n b =? 127)); [discriminate|].
+  destruct (shl64 dbg (low7 (b2n b)) shift) as [sh| | |]; cbn [bind] in H; try discriminate.
+  destruct (has_cont (b2n b)); [eapply IH; eauto|].
+  destruct ((shift + 7 <? 64) && (N.land (b2n b) 64 =? 64)).
+  - destruct (shl64 dbg (two64 - 1) (shift + 7)); cbn [bind] in H; inversion H; subst. apply to_i64_range.
+  - inversion H; subst. apply to_i64_range.
+Qed.
+
+Lemma le_val_lt : forall l, le_val l < 256 ^ N.of_nat (length l).
+Proof.
+  induction l as [|b t IH]; [cbn; lia|].
+  cbn [le_val length]. replace (N.of_nat (S (length t))) with (N.succ (N.of_nat (length t))) by lia.
+  rewrite N.pow_succ_r'. pose proof (b2n_lt b). lia.
+Qed.
+
+Lemma read_un_lt n bigend bs v r : read_un n bigend bs = Ok (v, r) -> v < 256 ^ N.of_nat n.
+Proof.
+  intros H. apply read_un_spec in H. destruct H as (h & _ & L & ->). subst n.
+  destruct bigend; [|apply le_val_lt].
+  unfold be_val. rewrite <- (rev_length h). apply le_val_lt.
+Qed.
+
+Definition raw_in_range (l : layout) (d : raw) : Prop :=
+  match l, d with
+  | LFixed n, RNum v => v < 256 ^ n
+  | LUleb, RNum v => v < two64
+  | LSleb, RInt z => (-9223372036854775808 <= z < 9223372036854775808)%Z
+  | _, _ => True
+  end.
+
+Lemma read_layout_range dbg bigend l bs d r : read_layout dbg bigend l bs = Ok (d, r) -> raw_in_range l d.
+Proof.
+  destruct l as [n| | |p| | |]; cbn [read_layout]; intros H.
+  - destruct (read_un (N.to_nat n) bigend bs) as [[v t]| | |] eqn:R; cbn [bind] in H; inversion H; subst.
+    apply read_un_lt in R. rewrite N2Nat.id in R. exact R.
+  - destruct (read_uleb128 dbg bs) as [[v t]| | |] eqn:R; cbn [bind] in H; inversion H; subst.
+    apply read_uleb128_lt in R. exact R.
+  - destruct (read_sleb128 dbg bs) as [[v t]| | |] eqn:R; cbn [bind] in H; inversion H; subst.
+    apply sleb_loop_range in R. exact R.
+  - destruct (read_block (read_prefix dbg bigend p bs)) as [[v t]| | |]; cbn [bind] in H; inversion H; exact I.
+  - destruct (read_cstr bs) as [[v t]| | |]; cbn [bind] in H; inversion H; exact I.
+  - inversion H; exact I.
+  - discriminate.
+Qed.
+
+Lemma valid_size_pow n : valid_size n = true -> 256 ^ n <= two64.
+Proof.
+  unfold valid_size. intros H.
+  destruct (N.eqb_spec n 1); [subst; vm_compute; discriminate|].
+  destruct (N.eqb_spec n 2); [subst; vm_compute; discriminate|].
+  destruct (N.eqb_spec n 4); [subst; vm_compute; discriminate|].
+  destruct (N.eqb_spec n 8); [subst; vm_compute; discriminate|]. discriminate.
+Qed.
+
+Lemma form_value_range e spec f d v :
+  form_guard e spec f = None -> raw_in_range (form_layout f e) d ->
+  (-9223372036854775808 <= at_implicit spec < 9223372036854775808)%Z ->
+  form_value e (at_name spec) (at_implicit spec) f d = Some v -> value_in_range v.
+Proof.
+  intros G R I V.
+  destruct e as [ver f64 asz bigend].
+  destruct f; destruct d as [n|z|b|]; cbn [form_value form_layout raw_in_range form_guard
+      version fmt64 address_size be word_bytes] in *; try discriminate;
+    inversion V; subst; clear V; cbn [value_in_range]; try exact I; try assumption;
+    try (change (256 ^ 1) with 256 in R; change (256 ^ 2) with 65536 in R;
+         change (256 ^ 3) with 16777216 in R; change (256 ^ 4) with 4294967296 in R;
+         change (256 ^ 8) with 18446744073709551616 in R;
+         unfold two16, two32, two64 in *; lia).
+  - (* addr *) destruct (valid_size asz) eqn:Va; [|discriminate]. apply valid_size_pow in Va. lia.
+  - (* data4 *) change (256 ^ 4) with 4294967296 in R.
+    destruct (negb f64 && legacy_section_offset (at_name spec) ver); cbn; unfold two32, two64; lia.
+  - (* data8 *) change (256 ^ 8) with two64 in R.
+    destruct (f64 && legacy_section_offset (at_name spec) ver); cbn; assumption.
+  - (* strp *) destruct f64; unfold word_bytes in R; cbn [fmt64] in R; cbv iota in R; [change (256 ^ 8) with two64 in R|change (256 ^ 4) with 4294967296 in R; unfold two64]; lia.
+  - (* ref_addr *)
+    destruct (ver =? 2); cbn [andb negb] in G.
+    + destruct (valid_size asz) eqn:Va; [|discriminate]. apply valid_size_pow in Va. lia.
+    + destruct f64; unfold word_bytes in R; cbn [fmt64] in R; cbv iota in R; [change (256 ^ 8) with two64 in R|change (256 ^ 4) with 4294967296 in R; unfold two64]; lia.
+  - destruct f64; unfold word_bytes in R; cbn [fmt64] in R; cbv iota in R; [change (256 ^ 8) with two64 in R|change (256 ^ 4) with 4294967296 in R; unfold two64]; lia.
+  - destruct f64; unfold word_bytes in R; cbn [fmt64] in R; cbv iota in R; [change (256 ^ 8) with two64 in R|change (256 ^ 4) with 4294967296 in R; unfold two64]; lia.
+  - destruct f64; unfold word_bytes in R; cbn [fmt64] in R; cbv iota in R; [change (256 ^ 8) with two64 in R|change (256 ^ 4) with 4294967296 in R; unfold two64]; lia.
+  - destruct f64; unfold word_bytes in R; cbn [fmt64] in R; cbv iota in R; [change (256 ^ 8) with two64 in R|change (256 ^ 4) with 4294967296 in R; unfold two64]; lia.
+  - destruct f64; unfold word_bytes in R; cbn [fmt64] in R; cbv iota in R; [change (256 ^ 8) with two64 in R|change (256 ^ 4) with 4294967296 in R; unfold two64]; lia.
+Qed.
+
+Lemma parse_attribute_in_range dbg e spec bs v r :
+  (-9223372036854775808 <= at_implicit spec < 9223372036854775808)%Z ->
+  parse_attribute dbg e spec bs = Ok (v, r) -> value_in_range v.
+Proof.
+  intros I. unfold parse_attribute. generalize (S (length bs)) as fuel. generalize (at_form spec) as c.
+  intros c fuel. revert c bs.
+  induction fuel as [|fuel IH]; intros c bs P.
+  - destruct (N.eq_dec c DW_FORM_indirect) as [->|Hc]; [discriminate P|].
+    rewrite parse_form_direct in P by assumption.
+    destruct (form_of_code c) as [f|] eqn:E; [|rewrite parse_direct_unknown in P by assumption; discriminate].
+    apply form_of_code_some in E. subst c.
+    rewrite parse_direct_known in P by (intros ->; apply Hc; reflexivity).
+    apply decode_by_layout_ok in P. destruct P as (G & d & R & V).
+    apply read_layout_range in R. eapply form_value_range; eauto.
+  - destruct (N.eq_dec c DW_FORM_indirect) as [->|Hc].
+    + rewrite parse_form_indirect in P.
+      destruct (read_uleb128_u16 bs) as [[c' p1]| | |] eqn:R; cbn [bind] in P; try discriminate.
+      eapply IH; eauto.
+    + apply (IH c bs). rewrite parse_form_direct in * by assumption. assumption.
+Qed.
